@@ -321,6 +321,8 @@ func ruleLex(c *Ctx) {
 		c.R.Check(okSk, "parser/lexer.lexer.skipSpace", "LEX-4 white space advances through Move", sk.Pos(), "line/column stay exact across newlines", "white space is skipped without Move")
 	}
 
+	c.sourceIdentity("LEX-4")
+
 	// LEX-5 match closures return rune counts
 	for _, fnm := range []string{"str", "keyword", "regex", "primOper"} {
 		fd := c.FuncDecl("parser/lexer", fnm)
